@@ -3,6 +3,7 @@
     environments, kernel oracles, observation, and the boolean checks the theorems evaluate. *)
 From Coq Require Import List ZArith NArith Bool String.
 From GS Require Import Launch.ChildIR Launch.ChildSeq.
+From GS Require Launch.FdShuffle.
 From Gen Require Import ChildSrcGen.
 Import ListNotations.
 Open Scope Z_scope.
@@ -40,9 +41,14 @@ Definition ok_orc : oracle := fun n nr args =>
 
 Definition EIO := 5.
 Definition ESRCH := 3.
+Definition EPERM := 1.
+Definition EEXIST := 17.
+Definition ETXTBSY := 26.
+(** the errno the k-th call fails with: the three are used in turn, so that every step meets each of them in some configuration *)
+Definition errno_at (k : nat) : Z := nth (Nat.modulo k 3) [EIO; EPERM; EEXIST] EIO.
 (** the k-th call fails (for getppid: the launcher is gone, another parent is reported) *)
 Definition fail_at (k : nat) : oracle := fun n nr args =>
-  if Nat.eqb n k then (if Z.eqb nr NR_getppid then (1, 0, []) else (-1, EIO, [])) else ok_orc n nr args.
+  if Nat.eqb n k then (if Z.eqb nr NR_getppid then (1, 0, []) else (-1, errno_at k, [])) else ok_orc n nr args.
 (** the k-th call answers (r, errno) and writes [w] *)
 Definition answer_at (k : nat) (r e : Z) (w : list (N * Z)) : oracle := fun n nr args =>
   if Nat.eqb n k then (r, e, w) else ok_orc n nr args.
@@ -189,7 +195,7 @@ Definition check_fate (f : flags) (ok_post : list obs) (cs : list xcall) (k : na
     is_exited sg &&
     match rev post with
     | OExit p loc None e :: r =>
-        Z.eqb p fd_sync && loc_ok prev c loc && Z.eqb e (if Z.eqb (fst c) NR_getppid then ESRCH else EIO) &&
+        Z.eqb p fd_sync && loc_ok prev c loc && Z.eqb e (if Z.eqb (fst c) NR_getppid then ESRCH else errno_at (n_pre + k)) &&
         list_eqb obs_eqb (rev r) (map OCall (firstn (S k) cs))
     | _ => false
     end.
@@ -251,6 +257,27 @@ Definition check_gate (f : flags) : bool :=
      end
    else negb (existsb (is_sync_io NR_write) cs)).
 
+(** ** the domains the checks are evaluated on *)
+Definition mk (a b : list bool) : option flags :=
+  match a, b with
+  | [d; e; f; g; h; i; j; k; l; m; n; o], [nu; np; nn; ct; pv; ho; dm; wd; ex] =>
+      Some {| x_newuser := nu; x_newpid := np; x_newns := nn; x_cred := d; x_gidmap := e; x_gidsetgroups := f; x_nogroups := g;
+              x_nosetgroups := h; x_dropcaps := i; x_nnp := j; x_seccomp := k; x_ptrace := l; x_stop := m; x_sync := n; x_ucas := o;
+              x_ctty := ct; x_pivot := pv; x_host := ho; x_domain := dm; x_workdir := wd; x_execfile := ex |}
+  | _, _ => None
+  end.
+Definition on_opt (c : flags -> bool) (o : option flags) : bool := match o with Some f => c f | None => false end.
+
+(** the nine options that do not interact with the others: all off, all on, exactly one on, exactly one off *)
+Definition one_hot (n i : nat) (v : bool) : list bool := map (fun j => if Nat.eqb i j then v else negb v) (seq 0 n).
+Definition cover_B : list (list bool) :=
+  [repeat false 9; repeat true 9] ++ map (fun i => one_hot 9 i true) (seq 0 9) ++ map (fun i => one_hot 9 i false) (seq 0 9).
+Definition ends_B : list (list bool) := [repeat false 9; repeat true 9].
+
+(** shard [pre] (the first four of the twelve interacting options) of a domain A x B *)
+Definition shard_ok (c : flags -> bool) (B : list (list bool)) (pre : list bool) : bool :=
+  forallb (fun rest => forallb (fun b => on_opt c (mk (pre ++ rest) b)) B) (all_bits 8).
+
 (** ** the loops over the caller's mounts and resource limits *)
 Record mshape := { ms_prefixes : nat; ms_makenod : bool; ms_flags : Z; ms_statfs : Z }.
 Definition elem_of_mount (m : mshape) : elem :=
@@ -264,7 +291,7 @@ Definition env_loops (f : flags) (ms : list mshape) (nrl : nat) : state :=
 Fixpoint statfs_words (ms : list mshape) : list Z :=
   match ms with [] => [] | m :: r => (if Z.eqb (Z.land (ms_flags m) bind_ro) bind_ro then [ms_statfs m] else []) ++ statfs_words r end.
 Definition loops_expected (f : flags) (ms : list mshape) (nrl : nat) : list (xcall * option (Z * Z)) * list (xcall * option (Z * Z)) :=
-  (concat (map (fun im => mount_calls (Z.of_nat (fst im)) (ms_prefixes (snd im)) (ms_makenod (snd im)) (ms_flags (snd im)) (ms_statfs (snd im)))
+  (List.concat (map (fun im => mount_calls (Z.of_nat (fst im)) (ms_prefixes (snd im)) (ms_makenod (snd im)) (ms_flags (snd im)) (ms_statfs (snd im)))
                (combine (seq 0 (List.length ms)) ms)),
    rlimit_calls nrl).
 (** the kernel for the loops: statfs answers in order; [bad]: the call with that number fails with [errno] *)
@@ -274,7 +301,7 @@ Definition loop_orc (words : list Z) (bad : option (nat * Z)) : oracle := fun n 
   | None => ok_orc n nr args
   end.
 (** statfs results are threaded through a counter kept in the variable it writes: the n-th statfs gets the n-th word *)
-Fixpoint nth_word (l : list Z) (i : nat) : Z := nth i l 0.
+Definition nth_word (l : list Z) (i : nat) : Z := nth i l 0.
 Definition loop_orc_st (ms : list mshape) (bad : option (nat * Z)) (stat_index : nat -> nat) : oracle := fun n nr args =>
   let '(r, e, w) := loop_orc (statfs_words ms) bad n nr args in
   if Z.eqb nr NR_statfs && Z.eqb e 0 then (r, e, [(v_s_Flags, nth_word (statfs_words ms) (stat_index n))]) else (r, e, w).
@@ -301,13 +328,17 @@ Definition check_loops (f : flags) (ms : list mshape) (nrl : nat) : bool :=
       match snd c with
       | Some (loc, idx) =>
           let k := (offset + i)%nat in
-          let '(sg', _, post') := run_src (loop_orc_st ms (Some ((n_pre + k)%nat, EIO)) sidx) (env_loops f ms nrl) in
-          is_exited sg' && list_eqb obs_eqb post' (map OCall (firstn (S k) expected) ++ [OExit fd_sync loc (Some idx) EIO]) &&
+          forallb (fun e =>
+            let '(sg', _, post') := run_src (loop_orc_st ms (Some ((n_pre + k)%nat, e)) sidx) (env_loops f ms nrl) in
+            is_exited sg' && list_eqb obs_eqb post' (map OCall (firstn (S k) expected) ++ [OExit fd_sync loc (Some idx) e]))
+            [EIO; EPERM; ETXTBSY; 2; 16; 22] &&
           (* an existing directory or node is not an error *)
           (if nr_in (fst c) [NR_mkdirat; NR_mknodat] then
-             let '(sg2, _, post2) := run_src (loop_orc_st ms (Some ((n_pre + k)%nat, 17)) sidx) (env_loops f ms nrl) in
+             let '(sg2, _, post2) := run_src (loop_orc_st ms (Some ((n_pre + k)%nat, EEXIST)) sidx) (env_loops f ms nrl) in
              is_exited sg2 && list_eqb obs_eqb post2 (map OCall expected)
-           else true)
+           else
+             let '(sg2, _, post2) := run_src (loop_orc_st ms (Some ((n_pre + k)%nat, EEXIST)) sidx) (env_loops f ms nrl) in
+             is_exited sg2 && list_eqb obs_eqb post2 (map OCall (firstn (S k) expected) ++ [OExit fd_sync loc (Some idx) EEXIST]))
       | None => true
       end) (combine (seq 0 (List.length l)) l) in
   fails n_before me && fails (n_before + List.length me + n_mid)%nat re.
@@ -324,37 +355,120 @@ Definition loop_cases : list (list mshape * nat) :=
                   nth (i * 11 + 5) mount_shapes (nth 0 mount_shapes {| ms_prefixes := 0; ms_makenod := false; ms_flags := 0; ms_statfs := 0 |});
                   nth (i * 13 + 1) mount_shapes (nth 0 mount_shapes {| ms_prefixes := 0; ms_makenod := false; ms_flags := 0; ms_statfs := 0 |})], 2%nat))
       (seq 0 8).
-Definition flags_plain : option flags := mk (repeat false 12) (repeat false 9).
-Definition flags_rooted : option flags := mk (repeat false 12) [false; false; true; false; true; false; false; true; false].
-Definition check_loops_all (of : option flags) : bool :=
-  match of with Some f => forallb (fun c => check_loops f (fst c) (snd c)) loop_cases | None => false end.
+Definition flags_plain : flags :=
+  {| x_newuser := false; x_newpid := false; x_newns := false; x_cred := false; x_gidmap := false; x_gidsetgroups := false;
+     x_nogroups := false; x_nosetgroups := false; x_dropcaps := false; x_nnp := false; x_seccomp := false; x_ptrace := false;
+     x_stop := false; x_sync := false; x_ucas := false; x_ctty := false; x_pivot := false; x_host := false; x_domain := false;
+     x_workdir := false; x_execfile := false |}.
+(** a new mount namespace with a pivoted root and a working directory *)
+Definition flags_rooted : flags :=
+  {| x_newuser := false; x_newpid := false; x_newns := true; x_cred := false; x_gidmap := false; x_gidsetgroups := false;
+     x_nogroups := false; x_nosetgroups := false; x_dropcaps := false; x_nnp := false; x_seccomp := false; x_ptrace := false;
+     x_stop := false; x_sync := false; x_ucas := false; x_ctty := false; x_pivot := true; x_host := false; x_domain := false;
+     x_workdir := true; x_execfile := false |}.
+Definition check_loops_list (f : flags) (l : list (list mshape * nat)) : bool := forallb (fun c => check_loops f (fst c) (snd c)) l.
 
-(** ** the domains the checks are evaluated on *)
-Definition mk (a b : list bool) : option flags :=
-  match a, b with
-  | [d; e; f; g; h; i; j; k; l; m; n; o], [nu; np; nn; ct; pv; ho; dm; wd; ex] =>
-      Some {| x_newuser := nu; x_newpid := np; x_newns := nn; x_cred := d; x_gidmap := e; x_gidsetgroups := f; x_nogroups := g;
-              x_nosetgroups := h; x_dropcaps := i; x_nnp := j; x_seccomp := k; x_ptrace := l; x_stop := m; x_sync := n; x_ucas := o;
-              x_ctty := ct; x_pivot := pv; x_host := ho; x_domain := dm; x_workdir := wd; x_execfile := ex |}
-  | _, _ => None
+Lemma check_loops_list_spec f l : check_loops_list f l = true -> forall c, In c l -> check_loops f (fst c) (snd c) = true.
+Proof. intros H. exact (proj1 (forallb_forall _ _) H). Qed.
+
+Definition is_sync_any (nr : Z) (c : xcall) : bool :=
+  Z.eqb (fst c) nr && match snd c with [XInt _; XPtr p; XInt 8] => String.eqb p "&err2" | _ => false end.
+Definition list_prod_map (a b : list Z) : list (list Z) := flat_map (fun x => map (fun y => [x; y]) b) a.
+
+(** ** the descriptor shuffle: the calls the source issues for a list of descriptors, replayed on the kernel's descriptor
+    table of Launch/FdShuffle.v, against [FdShuffle.shuffle] (about which C06_shuffle is proved for every list) *)
+Module FS := GS.Launch.FdShuffle.
+Record fdcase := { fc_files : list Z; fc_pipe : Z; fc_exec : Z; fc_closed : list Z }.   (* fc_closed: listed numbers that are not open *)
+Definition fd_flags (exec : Z) : flags :=
+  {| x_newuser := false; x_newpid := false; x_newns := false; x_cred := false; x_gidmap := false; x_gidsetgroups := false;
+     x_nogroups := false; x_nosetgroups := false; x_dropcaps := false; x_nnp := false; x_seccomp := false; x_ptrace := false;
+     x_stop := false; x_sync := true; x_ucas := false; x_ctty := false; x_pivot := false; x_host := false; x_domain := false;
+     x_workdir := false; x_execfile := Z.ltb 0 exec |}.
+Definition env_fd (c : fdcase) : state :=
+  let s := env_of (fd_flags (fc_exec c)) in
+  {| vars := (v_r_ExecFile, fc_exec c) :: vars s;
+     arrs := (v_p, [fd_parent_end + 100; fc_pipe c]) :: (v_r_Files, fc_files c) :: arrs s;
+     sarrs := sarrs s; ncalls := 0; trace := [] |}.
+(** the table before the shuffle: every listed number that is not in [fc_closed], the sync socket and the exec descriptor
+    (both close-on-exec), and the descriptors 0..2 of the launcher *)
+Definition table0 (c : fdcase) : FS.ftab :=
+  fun fd =>
+    if Z.eqb fd (fc_pipe c) then Some (1000%nat, true)
+    else if Z.ltb 0 (fc_exec c) && Z.eqb fd (fc_exec c) then Some (1001%nat, true)
+    else if existsb (Z.eqb fd) (fc_closed c) then None
+    else if (existsb (Z.eqb fd) (fc_files c) || (Z.leb 0 fd && Z.leb fd 2)) && Z.leb 0 fd then Some (Z.to_nat fd, false)
+    else None.
+(** the calls of the source between the ids and the session, applied to the table; stops at the first call the kernel refuses *)
+Fixpoint replay (T : FS.ftab) (l : list xcall) : FS.res FS.ftab :=
+  match l with
+  | [] => FS.Ok T
+  | (nr, args) :: r =>
+      if Z.eqb nr NR_dup3 then
+        match args with
+        | [XInt o; XInt n; XInt fl] => if Z.eqb fl 524288 then match FS.dup3 T o n true with FS.Ok T' => replay T' r | FS.Err e => FS.Err e end else FS.Err (-1)
+        | [XInt o; XInt n] => match FS.dup3 T o n false with FS.Ok T' => replay T' r | FS.Err e => FS.Err e end
+        | _ => FS.Err (-1)
+        end
+      else if Z.eqb nr NR_fcntl then
+        match args with
+        | [XInt fd; XInt 2] => match FS.set_cloexec T fd false with FS.Ok T' => replay T' r | FS.Err e => FS.Err e end
+        | _ => FS.Err (-1)
+        end
+      else if Z.eqb nr NR_close then
+        match args with [XInt fd] => replay (FS.close T fd) r | _ => FS.Err (-1) end
+      else replay T r
   end.
-Definition on_opt (c : flags -> bool) (o : option flags) : bool := match o with Some f => c f | None => false end.
+Definition fd_calls (cs : list xcall) : list xcall :=
+  (* everything after the first call (close of the launcher's end) that touches the table, up to setsid *)
+  let after := match cs with _ :: r => r | [] => [] end in
+  (fix take (l : list xcall) : list xcall :=
+     match l with [] => [] | c :: r => if Z.eqb (fst c) NR_setsid then [] else (if nr_in c [NR_dup3; NR_fcntl; NR_close] then c :: take r else take r) end) after.
+Definition view (T : FS.ftab) : list (option nat) := map (fun i => FS.at_exec T (Z.of_nat i)) (seq 0 48).
+Definition optn_eqb (a b : option nat) : bool := match a, b with Some x, Some y => Nat.eqb x y | None, None => true | _, _ => false end.
+Definition check_fd (c : fdcase) : bool :=
+  let '(sg, _, post) := run_src ok_orc (env_fd c) in
+  let cs := ocalls post in
+  (* where the source believes the sync socket and the exec descriptor are afterwards: the descriptors it uses *)
+  let pipe_used := match find (is_sync_any NR_write) cs with Some (_, XInt fd :: _) => fd | _ => -1 end in
+  let exec_used := match find is_exec cs with Some (_, XInt fd :: _) => fd | _ => 0 end in
+  match FS.shuffle true (table0 c) (fc_files c) (fc_pipe c) (fc_exec c), replay (table0 c) (fd_calls cs) with
+  | FS.Ok (T, p, e), FS.Ok T' =>
+      is_exited sg && list_eqb optn_eqb (view T) (view T') && Z.eqb p pipe_used && Z.eqb e exec_used &&
+      (* and the two are still open, close-on-exec, on the descriptions they had *)
+      match T' pipe_used with Some (o, true) => Nat.eqb o 1000 | _ => false end &&
+      (if Z.ltb 0 (fc_exec c) then match T' exec_used with Some (o, true) => Nat.eqb o 1001 | _ => false end else true)
+  | FS.Err _, FS.Err _ => true
+  | _, _ => false
+  end.
+Definition small_lists : list (list Z) :=
+  let al := [-1; 0; 1; 2; 3; 5; 12] in
+  [[]] ++ map (fun a => [a]) al ++ list_prod_map al al ++ flat_map (fun a => map (cons a) (list_prod_map al al)) al.
+Definition fd_cases : list fdcase :=
+  flat_map (fun fl => flat_map (fun pe =>
+    [{| fc_files := fl; fc_pipe := fst pe; fc_exec := snd pe; fc_closed := [] |}])
+    [(21, 0); (21, 7); (4, 0); (4, 7); (6, 7); (21, 3); (21, 13); (14, 13); (4, 14); (13, 14)]) small_lists ++
+  (* listed numbers that are not open *)
+  map (fun fl => {| fc_files := fl; fc_pipe := 21; fc_exec := 0; fc_closed := [5] |}) small_lists ++
+  (* longer lists *)
+  [{| fc_files := [5; 4; 3; 2; 1; 0]; fc_pipe := 21; fc_exec := 7; fc_closed := [] |};
+   {| fc_files := [1; 0; 1; 0; 9; 9; 3; -1; 2]; fc_pipe := 8; fc_exec := 10; fc_closed := [] |};
+   {| fc_files := [12; 11; 10; 9; 8; 7; 6; 5; 4; 3; 2; 1; 0]; fc_pipe := 14; fc_exec := 15; fc_closed := [] |};
+   {| fc_files := [0; 1; 2; 25; 26]; fc_pipe := 24; fc_exec := 27; fc_closed := [] |}].
+Definition check_fd_list (l : list fdcase) : bool := forallb check_fd l.
+Lemma check_fd_list_spec l : check_fd_list l = true -> forall c, In c l -> check_fd c = true.
+Proof. intros H. exact (proj1 (forallb_forall _ _) H). Qed.
 
-(** the nine options that do not interact with the others: all off, all on, exactly one on, exactly one off *)
-Definition one_hot (n i : nat) (v : bool) : list bool := map (fun j => if Nat.eqb i j then v else negb v) (seq 0 n).
-Definition cover_B : list (list bool) :=
-  [repeat false 9; repeat true 9] ++ map (fun i => one_hot 9 i true) (seq 0 9) ++ map (fun i => one_hot 9 i false) (seq 0 9).
-Definition ends_B : list (list bool) := [repeat false 9; repeat true 9].
-
-(** shard [pre] (the first four of the twelve interacting options) of a domain A x B *)
-Definition shard_ok (c : flags -> bool) (B : list (list bool)) (pre : list bool) : bool :=
-  forallb (fun rest => forallb (fun b => on_opt c (mk (pre ++ rest) b)) B) (all_bits 8).
+(** the cross domain: the nine independent options exhaustively, with the twelve others all off and all on *)
+Definition ends_A : list (list bool) := [repeat false 12; repeat true 12].
+Definition cross_ok (c : flags -> bool) : bool := forallb (fun a => forallb (fun b => on_opt c (mk a b)) (all_bits 9)) ends_A.
+Lemma cross_ok_spec c : cross_ok c = true -> forall a b, In a ends_A -> In b (all_bits 9) -> on_opt c (mk a b) = true.
+Proof. intros H a b Ha Hb. exact (proj1 (forallb_forall _ _) (proj1 (forallb_forall _ _) H a Ha) b Hb). Qed.
 
 Lemma shard_ok_spec c B pre : shard_ok c B pre = true ->
   forall rest b, In rest (all_bits 8) -> In b B -> on_opt c (mk (pre ++ rest) b) = true.
 Proof.
-  unfold shard_ok; intros H rest b Hr Hb.
-  rewrite forallb_forall in H. specialize (H rest Hr). rewrite forallb_forall in H. exact (H b Hb).
+  intros H rest b Hr Hb.
+  exact (proj1 (forallb_forall _ _) (proj1 (forallb_forall _ _) H rest Hr) b Hb).
 Qed.
 
 Lemma combine16 c B :
@@ -366,6 +480,27 @@ Proof.
   exact (shard_ok_spec c B p (H p Hp) r b Hr Hb).
 Qed.
 
-(** first configuration of a domain on which a check fails (diagnosis only) *)
+(** first configuration of a domain on which a check fails, fewest options first (diagnosis only) *)
 Definition first_bad (c : flags -> bool) (B : list (list bool)) : option (list bool * list bool) :=
-  find (fun ab => negb (on_opt c (mk (fst ab) (snd ab)))) (list_prod (all_bits 12) B).
+  find (fun ab => negb (on_opt c (mk (fst ab) (snd ab)))) (rev (list_prod (all_bits 12) B)).
+Definition first_bad_cross (c : flags -> bool) : option (list bool * list bool) :=
+  find (fun ab => negb (on_opt c (mk (fst ab) (snd ab)))) (rev (list_prod ends_A (all_bits 9))).
+(** where the calls of the source and of the specification part (diagnosis only) *)
+Fixpoint first_diff (i : nat) (a b : list xcall) : option (nat * option xcall * option xcall) :=
+  match a, b with
+  | [], [] => None
+  | x :: r, y :: s => if xcall_eqb x y then first_diff (S i) r s else Some (i, Some x, Some y)
+  | x :: _, [] => Some (i, Some x, None)
+  | [], y :: _ => Some (i, None, Some y)
+  end.
+Definition show_bad (keep : xcall -> bool) (ab : option (list bool * list bool)) :=
+  match ab with
+  | Some (a, b) =>
+      match mk a b with
+      | Some f => let '(sg, pre, post) := run_src ok_orc (env_of f) in
+                  Some (sg, first_diff 0 (filter keep (ocalls pre ++ ocalls post)) (filter keep (ocalls (pre_spec f) ++ calls_of f)),
+                        ocalls post)
+      | None => None
+      end
+  | None => None
+  end.
